@@ -138,6 +138,17 @@ func TestVerifReplayGetData(t *testing.T) {
 		"unknown path":                            {{Elem: []*sdcpb.PathElem{{Name: "nosuchthing"}}}},
 		"an entry in the middle of the stream holds bytes that are no value": {{Elem: []*sdcpb.PathElem{{Name: "interface"}}}},
 	}
+	requests["two list entries, one of them stored without its key leaf"] = []*sdcpb.Path{ifPath("ethernet-1/2")}
+	// (only for the request above) sub-entries of ethernet-1/2: 0 without its key leaf, 7 with it
+	uv := func(u uint64) []byte {
+		b, _ := proto.Marshal(&sdcpb.TypedValue{Value: &sdcpb.TypedValue_UintVal{UintVal: u}})
+		return b
+	}
+	noKeyLeaf := []*cache.Update{
+		cache.NewUpdate([]string{"interface", "ethernet-1/2", "subinterface", "0", "description"}, sv("sub0"), 0, "", 0),
+		cache.NewUpdate([]string{"interface", "ethernet-1/2", "subinterface", "7", "index"}, uv(7), 0, "", 0),
+		cache.NewUpdate([]string{"interface", "ethernet-1/2", "subinterface", "7", "description"}, sv("sub7"), 0, "", 0),
+	}
 	// (only for the request above) an entry between the healthy ones whose stored bytes do not decode
 	broken := cache.NewUpdate([]string{"interface", "ethernet-1/10", "description"}, []byte{0xff, 0xff, 0xff}, 0, "", 0)
 	n := 0
@@ -183,10 +194,15 @@ func TestVerifReplayGetData(t *testing.T) {
 						if strings.HasPrefix(rname, "an entry in the middle") {
 							src = append(append(append([]*cache.Update{}, stored[:3]...), broken), stored[4:]...)
 						}
+						if strings.HasPrefix(rname, "two list entries, one of them stored without") {
+							src = append(append([]*cache.Update{}, stored...), noKeyLeaf...)
+						}
 						for _, u := range src {
 							for _, p := range ps {
 								k := strings.Join(u.GetPath(), "\x00")
-								if vrgCovers(p, u.GetPath()) && !seen[k] {
+								// the config store of the cache matches the requested path as a prefix of the stored key, without
+								// a delimiter behind it: interface,ethernet-1/1 also matches interface,ethernet-1/10,...
+								if strings.HasPrefix(strings.Join(u.GetPath(), ","), strings.Join(p, ",")) && !seen[k] {
 									seen[k] = true
 									ch <- u
 								}
@@ -227,7 +243,19 @@ func TestVerifReplayGetData(t *testing.T) {
 			}
 			out := make(chan *sdcpb.GetDataResponse, 100)
 			ctx, cancel := context.WithTimeout(context.Background(), 2*time.Second)
-			err = d.Get(ctx, &sdcpb.GetDataRequest{Name: "dev1", Path: paths, DataType: sdcpb.DataType_CONFIG, Encoding: enc, Datastore: dstore}, out)
+			func() {
+				defer func() {
+					if r := recover(); r != nil {
+						err = fmt.Errorf("panic: %v", r)
+						fmt.Printf("REPLAY-FAIL fn=%s clause=panic input=request=%s,encoding=%s panic=%v\n", fn, rname, enc, r)
+						for _, f := range []string{"(*datastore.Datastore).handleGetDataUpdatesJSON", "tree.getListEntrySortFunc"} {
+							fmt.Printf("REPLAY-FAIL fn=%s clause=panic input=request=%s,encoding=%s panic=%v\n", f, rname, enc, r)
+						}
+						close(out)
+					}
+				}()
+				err = d.Get(ctx, &sdcpb.GetDataRequest{Name: "dev1", Path: paths, DataType: sdcpb.DataType_CONFIG, Encoding: enc, Datastore: dstore}, out)
+			}()
 			cancel()
 			var got []string
 			for rsp := range out {
@@ -253,6 +281,13 @@ func TestVerifReplayGetData(t *testing.T) {
 			in := fmt.Sprintf("request=%s,encoding=%s", rname, enc)
 			reader := map[sdcpb.Encoding]string{sdcpb.Encoding_STRING: "(*datastore.Datastore).handleGetDataUpdatesSTRING", sdcpb.Encoding_PROTO: "(*datastore.Datastore).handleGetDataUpdatesPROTO",
 				sdcpb.Encoding_JSON: "(*datastore.Datastore).handleGetDataUpdatesJSON", sdcpb.Encoding_JSON_IETF: "(*datastore.Datastore).handleGetDataUpdatesJSON"}[enc]
+			if strings.HasPrefix(rname, "two list entries, one of them stored without") {
+				// (what the JSON reader adds for the missing key leaf is not compared here: an answer, not a crash)
+				if err != nil || len(got) == 0 {
+					fmt.Printf("REPLAY-FAIL fn=%s clause=requestedPaths input=%s why=err=%v, %d leaves returned\n", fn, in, err, len(got))
+				}
+				continue
+			}
 			if strings.HasPrefix(rname, "an entry in the middle") {
 				// a request that cannot be answered in full fails, it does not pass for a shorter answer
 				if err == nil {
